@@ -1,28 +1,47 @@
-#!/bin/sh
-# For every fix: commit of /repo, apply its reverse to the working tree, run the checks that claim it, expect a VIOLATION (rc=1), restore.
-# usage: tools/revert_rehearsal.sh            -> table on stdout (also written to /verif/seeded/revert_rehearsal.txt)
-cd /repo || exit 2
-git diff --quiet || { echo "/repo is dirty"; exit 2; }
-out=/verif/seeded/revert_rehearsal.txt
-: > $out
-map() { case "$1" in
- *"S/T directly after Z"*) echo C02;; *"arc flags written"*) echo C02;; *"dropped a closing curve"*) echo C01;;
- *"kept the cached length"*) echo C16;; *"looser error"*) echo C16;; *"slice assignment"*) echo C16;;
- *"polyroots removed"*) echo "C19";; *"bisection had stalled"*) echo C07;; *"chain-rule factor"*) echo C04;;
- *"closing joint not re-joined"*) echo C10;; *"transform() of an Arc"*) echo "C10 C17";; *"rounded rectangles"*) echo C17;;
- *"SaxDocument ignored"*) echo C17;; *"empty group"*) echo C17;; *"invisible to the Document"*) echo C18;; *"could not be read by svg2paths"*) echo C18;;
- *"T2t could return"*) echo C09;; *"crop_bezier located"*) echo C09;; *"picked the wrong segment"*) echo C09;;
- *"missed extremes"*) echo C08;; *"lost its sign"*) echo C15;; *"returned nan at a vanishing"*) echo C15;;
- *"+/-inf for collinear"*) echo C06;; *"clockwise Arc"*) echo C12;; *) echo "";; esac; }
-git log --format='%h %s' | grep " fix:" | while read sha rest; do
-  pids=$(map "$rest")
-  [ -z "$pids" ] && { echo "$sha ?? no check mapped: $rest" | tee -a $out; continue; }
-  git show $sha | git apply -R 2>/dev/null || { echo "$sha SKIP (reverse patch does not apply on top of later fixes): $rest" | tee -a $out; git checkout -q -- .; continue; }
-  for pid in $pids; do
-    res=$(cd /verif && ./check $pid --tier quick 2>&1); rc=$?
-    n=$(echo "$res" | grep -c '^VIOLATION')
-    echo "$sha $pid rc=$rc violations_lines=$n :: $rest" | tee -a $out
-  done
-  git checkout -q -- .
-done
-cd /verif && git checkout -q -- evidence 2>/dev/null
+#!/bin/bash
+# For every fix: commit of /repo: apply its reverse in a scratch worktree of HEAD (never in /repo), run the quick check of the property recorded for it in
+# known_findings.json against that worktree (VERIF_REPO) and expect exit 1 with a VIOLATION line.
+# usage: tools/revert_rehearsal.sh [jobs]     -> table in /verif/seeded/revert_rehearsal.txt
+J=${1:-6}
+S=/tmp/revert_reh.$$; mkdir -p $S
+python3 - > $S/list.txt <<'PY'
+import json, subprocess
+k = json.load(open('/verif/known_findings.json'))
+props = {}
+for f in k['findings']:
+    if f.get('status') == 'fixed' and f.get('commit'):
+        props.setdefault(f['commit'][:7], [])
+        if f['property'] not in props[f['commit'][:7]]:
+            props[f['commit'][:7]].append(f['property'])
+import re
+for line in k['log']:
+    m = re.match(r'fixed: property=(C\d\d) ([0-9a-f]{7})', line)
+    if m and m.group(1) not in props.setdefault(m.group(2), []):
+        props[m.group(2)].append(m.group(1))
+log = subprocess.run(['git', '-C', '/repo', 'log', '--format=%h %s'], stdout=subprocess.PIPE, text=True).stdout.splitlines()
+for l in log:
+    sha, rest = l.split(' ', 1)
+    if rest.startswith('fix:'):
+        print(sha[:7], ','.join(props.get(sha[:7], [])) or '-', rest)
+PY
+run_one() {
+  sha=$1; pids=$2; shift 2; rest="$*"; S=$S_DIR; wt=$S/wt_$sha
+  [ "$pids" = "-" ] && { echo "$sha ?? no property recorded: $rest"; return; }
+  git -C /repo worktree add -q --detach $wt HEAD 2>/dev/null || { echo "$sha WORKTREE-FAILED"; return; }
+  if ! (git -C /repo show $sha | git -C $wt apply -R 2>/dev/null); then
+    echo "$sha SKIP (reverse patch does not apply on top of later fixes): $rest"
+  else
+    for pid in $(echo $pids | tr ',' ' '); do
+      res=$(cd /verif && VERIF_REPO=$wt VERIF_OUT=$S/out_$sha ./check $pid --tier quick 2>&1); rc=$?
+      n=$(echo "$res" | grep -c '^VIOLATION')
+      echo "$sha $pid rc=$rc violations_lines=$n :: $rest"
+    done
+  fi
+  git -C /repo worktree remove --force $wt; rm -rf $S/out_$sha
+}
+export -f run_one; export S_DIR=$S
+cat $S/list.txt | xargs -P $J -L 1 bash -c 'run_one "$@"' _ > $S/table.txt
+git -C /repo worktree prune
+{ echo "# revert rehearsal against /repo $(git -C /repo rev-parse --short HEAD), $(date -u +%FT%TZ)"; sort -k1,1 $S/table.txt; } > /verif/seeded/revert_rehearsal.txt
+rm -rf $S
+grep -c "rc=1" /verif/seeded/revert_rehearsal.txt; grep -v "rc=1" /verif/seeded/revert_rehearsal.txt | grep -v '^#'
